@@ -3,7 +3,7 @@
     requests were built through the public constructors, and F4Jumble outputs are >= 48 bytes. *)
 From V.Lib Require Import Base Hex.
 From V.Gen Require Import C11Consts.
-From V.C11 Require Import Model Spec Tab Eqb Legacy CorrLegacy Gap CorrGap Corr.
+From V.C11 Require Import Model Spec Tab Eqb Legacy CorrLegacy Gap CorrGap Extra CorrExtra Corr.
 Local Open Scope N_scope.
 
 Definition okb (n : N) (b : bytes) : bool := is_bytes b && (blen b =? n).
@@ -88,11 +88,60 @@ Definition uivk_claim (t : otab) (net : N) (k : uivk) (i : dinput) : bool :=
 
 Definition enc_ok (e : bytes * bytes) : bool := is_bytes (fst e) && is_bytes (snd e).
 
+(** the receiver list of a unified::Address as the container guarantees it: typecodes strictly
+    ascending, P2PKH and P2SH not both, not only transparent, known items of their fixed lengths *)
+Definition addr_item_okb (it : item) : bool :=
+  (fst it <=? MAX_TYPECODE) && is_bytes (snd it) && (blen (snd it) <=? MAX_COMPACT_SIZE)
+  && match addr_item_len (fst it) with Some n => blen (snd it) =? n | None => true end.
+Definition addr_items_ok (l : list item) : bool :=
+  forallb addr_item_okb l
+  && match try_from_items_internal l with Ok _ => true | _ => false end.
+
+Definition xtab_ok (t : otab) : bool :=
+  forallb (fun e => match e with
+                    | (f, k, i, r) => (1 <=? f) && (f <=? 25) && is_bytes k && (i <? DIVERSIFIER_SPACE)
+                                      && match r with OSome b => is_bytes b | _ => true end
+                    end) t.
+
+Definition wf_uaddr (a : uaddr) : bool :=
+  ookb 43 (uad_o a) && ookb 43 (uad_s a)
+  && match uad_t a with Some (PKH h) | Some (SH h) => okb 20 h | None => true end
+  && forallb (fun it => is_bytes (snd it)) (uad_unknown a).
+
+(** keys as the profile without `transparent-inputs` produces them: no transparent component;
+    the unknown items may start with the uninterpreted P2PKH item *)
+Definition nt_unknown_ok (l : list item) : bool := forallb (fun it => is_bytes (snd it)) l.
+
+Definition xwf (c : xcase) : bool :=
+  match c with
+  | XUa t items o =>
+      xtab_ok t && addr_items_ok items
+      && match o with
+         | Ok (a, re) => wf_uaddr a && forallb (fun it => is_bytes (snd it)) re
+         | _ => true
+         end
+  | XFvkNt t net i o =>
+      wf_tab t && (net <? 3) && wf_dinput i
+      && match o with
+         | Ok (k, e) => ookb FVK_SAPLING_LEN (fvk_s k) && ookb FVK_ORCHARD_LEN (fvk_o k)
+                        && nt_unknown_ok (fvk_unknown k) && enc_ok e
+         | _ => true
+         end
+  | XIvkNt t net i o =>
+      wf_tab t && (net <? 3) && wf_dinput i
+      && match o with
+         | Ok (k, e) => ookb IVK_SAPLING_LEN (ivk_s k) && ookb IVK_ORCHARD_LEN (ivk_o k)
+                        && nt_unknown_ok (ivk_unknown k) && enc_ok e
+         | _ => true
+         end
+  end.
+
 Definition wf_case (c : case) : bool :=
   match c with
   | CIntersect _ _ _ | CReqsNew _ _ _ _ | CReqsUnsafeNew _ _ _ _ | CCrypto _ _ => true
   | CLegacy l => lwf l
   | CGap g => gwf g
+  | CExtra x => xwf x
   | CReqsIntersect a b _ => shielded_possible a && shielded_possible b
   | CRecvReq k r _ => wf_uivk k && wf_request r
   | CUskToUfvk t k _ => wf_tab t && wf_usk k
